@@ -29,9 +29,12 @@ type GenOpts struct {
 	Distinct   bool // (method, template) pairs distinct inside a service; root shapes distinct
 	NoWild     bool
 	NoRegex    bool
-	PlainOnly  bool // literals and {v} only (C17 / C18 fragment)
-	Styles     bool // vary how the route path string is written ("a/b", "/a/b/")
-	StarMedia  bool // allow */* inside Consumes/Produces
+	PlainOnly  bool     // literals and {v} only (C17 / C18 fragment)
+	Styles     bool     // vary how the route path string is written ("a/b", "/a/b/")
+	StarMedia  bool     // allow */* inside Consumes/Produces
+	Nested     bool     // literal roots that nest (/, /a, /a/b)
+	Methods    []string // method pool (nil: all six)
+	MinSvcs    int
 }
 
 type genState struct {
@@ -108,6 +111,9 @@ func GenTable(r *core.Rand, o GenOpts) *Table {
 	g := &genState{r: r, o: o}
 	t := &Table{}
 	nsvc := r.Range(1, o.MaxSvcs)
+	if nsvc < o.MinSvcs {
+		nsvc = o.MinSvcs
+	}
 	rid := 0
 	seenRoot := map[string]bool{}
 	seenShape := map[string]bool{}
@@ -117,6 +123,15 @@ func GenTable(r *core.Rand, o GenOpts) *Table {
 		for try := 0; try < 12 && !ok; try++ {
 			g.vars = i * 100
 			root = g.tmpl(r.Intn(o.MaxRootLen+1), true)
+			if o.Nested && len(t.Svcs) > 0 && r.Chance(2, 3) {
+				// extend or shorten an existing root so that roots nest
+				base := t.Svcs[r.Intn(len(t.Svcs))].Root
+				if len(base) > 0 && r.Chance(1, 3) {
+					root = append(Tmpl{}, base[:len(base)-1]...)
+				} else {
+					root = append(append(Tmpl{}, base...), Seg{Kind: Lit, Lit: r.Pick(Literals)})
+				}
+			}
 			ok = !seenRoot[root.String()]
 			if o.Distinct && !root.AllLit() && seenShape[root.Shape()] {
 				ok = false
@@ -157,7 +172,11 @@ func GenTable(r *core.Rand, o GenOpts) *Table {
 					p[k] = ns
 				}
 			}
-			rs := RouteSpec{ID: rid, Method: r.Pick(Methods), Path: p}
+			mpool := Methods
+			if o.Methods != nil {
+				mpool = o.Methods
+			}
+			rs := RouteSpec{ID: rid, Method: r.Pick(mpool), Path: p}
 			key := rs.Method + " " + shapeKey(p)
 			if o.Distinct && seen[key] {
 				continue
